@@ -94,7 +94,7 @@ class RosenbergStrong(Pairing):
         m_d1 = m ** (dim - 1)
         m_d = m * m_d1
         aux = (m + 1) ** (dim - 1) - m_d1
-        xd = m - floor(max(0, z - m_d - m_d1) / aux)
+        xd = m - max(0, z - m_d - m_d1) // aux  # integer division: exact for indices beyond 2**53
         p = self.projection(z - m_d - (m - xd) * aux, dim=dim - 1)
         return p + (xd,)
 
